@@ -41,6 +41,17 @@ structure World where
   pos : Array Nat
   quantum : Nat
 
+/-- what a Guard operation of the scenario language means for the model: the (single) call the Guard member forwards to,
+    as read from the CURRENT Mutex.hpp / Monitor.hpp (Generated/SyncApi); a Guard member that does anything else has no
+    counterpart here (the op is then rejected by the driver and the correspondence run reports the broken tie) -/
+def guardOp (l : List Nstd.Generated.SyncApi.Call) (arg : Option Nat) : Option SOp :=
+  match l, arg with
+  | [.lock], none => some .lock
+  | [.unlock], none => some .unlock
+  | [.wait], none => some .wait
+  | [.waitTimeout], some ms => some (.twait ms)
+  | _, _ => none
+
 def valStr : Val → String
   | .unit => "v"
   | .bool b => if b then "1" else "0"
